@@ -153,6 +153,11 @@ func c14Objects(c *fw.Ctx, emit func(codec)) {
 	layouts := append([]LayoutDef{}, CoreLayouts...)
 	layouts = append(layouts, LP)
 	layouts = append(layouts, L("Lbig", "60s:86400s,300s:2592000s,3600s:157680000s"))
+	// valid layouts whose later archives start beyond 2^31 bytes / end just below 2^32 (offsets use all 32 bits)
+	layouts = append(layouts,
+		LayoutDef{Tag: "Lhuge1", Spec: "1s:178956968s,2s:180000000s", Archs: []wsp.Arch{{Step: 1, N: 178956968}, {Step: 2, N: 90000000}}},
+		LayoutDef{Tag: "Lhuge2", Spec: "1s:178956967s,2s:357913934s", Archs: []wsp.Arch{{Step: 1, N: 178956967}, {Step: 2, N: 178956967}}},
+		LayoutDef{Tag: "Lhuge3", Spec: "1s:2s,2s:300000000s,4s:800000000s", Archs: []wsp.Arch{{Step: 1, N: 2}, {Step: 2, N: 150000000}, {Step: 4, N: 200000000}}})
 	if c.Thorough() {
 		layouts = append(layouts, AllSmallLayouts()...)
 	}
